@@ -185,6 +185,25 @@ Theorem C08_secret_state_meaning :
 Proof. exact secret_state_meaning. Qed.
 Print Assumptions C08_secret_state_meaning.
 
+(* Secrets over time: a Secret whose last event is its deletion -- whatever it was before (valid,
+   invalid, referenced or never referenced) -- is Missing for every consumer, and a host naming it
+   rejects handshakes. *)
+Theorem C08_deleted_secret_is_missing :
+  forall h k d ty,
+    d_secrets d = secrets_of_history (h ++ [SecDelete k]) ->
+    secret_state d ty k = SMissing.
+Proof. exact deleted_secret_missing. Qed.
+Print Assumptions C08_deleted_secret_is_missing.
+
+Theorem C08_deleted_tls_secret_rejects :
+  forall h name ns d wildcard path_of,
+    name <> "" ->
+    d_secrets d = secrets_of_history (h ++ [SecDelete (nskey ns name)]) ->
+    vs_ssl_config (Some name) ns d wildcard path_of = Some (mkSsl true "") /\
+    ingress_ssl_config (Some name) ns d wildcard path_of = Some (mkSsl true "").
+Proof. exact deleted_tls_secret_rejects. Qed.
+Print Assumptions C08_deleted_tls_secret_rejects.
+
 (* Ingress JWT / basic auth: with the annotation present the directive is configured in EVERY
    state of the Secret (the state only adds a warning). *)
 Theorem C08_ingress_auth_kept :
@@ -247,4 +266,29 @@ Example C08_nonvacuous_virtualserver :
   = [("spec", false); ("route:/r", false); ("sub:default/vsr1:/v/a", true); ("sub:default/vsr1:/v/b", false)] /\
   map (fun sc => fst (scan_refs "nginx" ex_cluster ex_deps_bad (snd (fst (fst sc))) (snd (fst sc)) [] (snd sc))) (vs_scopes ex_vs)
   = [false; false; true; false].
+Proof. split; vm_compute; reflexivity. Qed.
+
+(* references are (namespace, name) PAIRS: two references with the same name in different
+   namespaces are different policies.  {name: guard} resolves to default/guard (usable),
+   {name: guard, namespace: other} to other/guard, whose Secret is missing: not shadowed (another
+   kind), so the scope fails -- in both orders. *)
+Definition ex_pm2 : policy_map :=
+  [("default/guard", mkPolicy KAccess "" "" false "" "" [] [] "" false);
+   ("other/guard", mkPolicy KBasic "htp" "" false "" "" [] [] "" false)].
+Definition ex_deps2 : deps := mkDeps [("default/htp", mkSecret TyHtpasswd true)] [] [] [] true.
+
+Example C08_same_name_other_namespace :
+  ref_key "default" ("", "guard") <> ref_key "default" ("other", "guard") /\
+  ref_unusable ex_pm2 ex_deps2 (mkScope CRoute "default" None) ("other", "guard") /\
+  generate_policies [("", "guard"); ("other", "guard")] ex_pm2 ex_deps2 (mkScope CRoute "default" None) = ErrorReturn /\
+  generate_policies [("other", "guard"); ("", "guard")] ex_pm2 ex_deps2 (mkScope CRoute "default" None) = ErrorReturn /\
+  (* the Secret default/htp does not help other/guard: dependencies are resolved in the policy's namespace *)
+  secret_state ex_deps2 TyHtpasswd (nskey "other" "htp") = SMissing.
+Proof. repeat split; try (vm_compute; reflexivity). vm_compute. discriminate. Qed.
+
+(* a TLS Secret that was created valid and then deleted before the VirtualServer arrived *)
+Example C08_nonvacuous_deleted_secret :
+  let d := mkDeps (secrets_of_history [SecUpsert "default/tls" (mkSecret TyTLS true); SecDelete "default/tls"]) [] [] [] false in
+  secret_state d TyTLS "default/tls" = SMissing /\
+  vs_ssl_config (Some "tls") "default" d false (fun k => k) = Some (mkSsl true "").
 Proof. split; vm_compute; reflexivity. Qed.
